@@ -415,20 +415,9 @@ func c05r5(c *Check) {
 	bufF := c.P.Field("destination", "Writer", "buf")
 	nF := c.P.Field("destination", "Writer", "n")
 	pPar := w.Params[1]
-	// direct write of caller data
-	n := 0
-	allInstrs(w, func(in ssa.Instruction) {
-		call, ok := in.(*ssa.Call)
-		if !ok || !call.Call.IsInvoke() || call.Call.Method.Name() != "Write" || !isFieldLoad(call.Call.Value, wrF) {
-			return
-		}
-		n++
-		if !derivedFrom(call.Call.Args[0], pPar, map[ssa.Value]bool{}) {
-			c.Violate("destination.Writer.Write direct write", c.At(call), "the socket is written with something other than the caller's data")
-			return
-		}
-		guarded := false
-		for _, b := range w.Blocks {
+	// direct write of caller data: every socket write in the Writer's methods that does not write the buffer itself
+	emptyGuarded := func(fn *ssa.Function, at *ssa.BasicBlock) bool {
+		for _, b := range fn.Blocks {
 			ifi, ok := b.Instrs[len(b.Instrs)-1].(*ssa.If)
 			if !ok {
 				continue
@@ -456,14 +445,61 @@ func c05r5(c *Check) {
 			if (bo.Op == token.NEQ) != neg {
 				emptyEdge = 1
 			}
-			if edgeDominates(b, b.Succs[emptyEdge], call.Block()) {
-				guarded = true
+			if edgeDominates(b, b.Succs[emptyEdge], at) {
+				return true
 			}
 		}
-		c.Judge(guarded, "destination.Writer.Write direct write only when the buffer is empty", c.At(call), "dominated by Buffered() == 0", "caller data is written straight to the socket while earlier bytes are still in the buffer: a long line overtakes (and tears) the lines buffered before it")
-	})
+		return false
+	}
+	var guardedIP func(fn *ssa.Function, at *ssa.BasicBlock, depth int) bool
+	guardedIP = func(fn *ssa.Function, at *ssa.BasicBlock, depth int) bool {
+		if emptyGuarded(fn, at) {
+			return true
+		}
+		if depth > 3 || fn == w {
+			return false
+		}
+		ins := c.P.CG().In[fn]
+		if len(ins) == 0 {
+			return false
+		}
+		for _, e := range ins {
+			if e.Kind != EdgeCall || e.Dyn || !guardedIP(e.Caller, e.Site.Block(), depth+1) {
+				return false
+			}
+		}
+		return true
+	}
+	n := 0
+	for _, fn := range c.P.Funcs {
+		if fnPkg(fn) != fnPkg(w) || fn.Signature.Recv() == nil || fn.Signature.Recv().Type().String() != w.Signature.Recv().Type().String() {
+			continue
+		}
+		fn := fn
+		allInstrs(fn, func(in ssa.Instruction) {
+			call, ok := in.(*ssa.Call)
+			if !ok || !call.Call.IsInvoke() || call.Call.Method.Name() != "Write" || !isFieldLoad(call.Call.Value, wrF) {
+				return
+			}
+			if sl, ok := call.Call.Args[0].(*ssa.Slice); ok && isFieldLoad(sl.X, bufF) {
+				return // writes the buffer itself (flush)
+			}
+			n++
+			fromParam := false
+			for _, par := range fn.Params {
+				if derivedFrom(call.Call.Args[0], par, map[ssa.Value]bool{}) {
+					fromParam = true
+				}
+			}
+			if !fromParam {
+				c.Violate("destination.Writer direct write "+FuncName(fn), c.At(call), "the socket is written with something other than the caller's data or the buffer")
+				return
+			}
+			c.Judge(guardedIP(fn, call.Block(), 0), "destination.Writer direct write only when the buffer is empty "+FuncName(fn), c.At(call), "dominated by Buffered() == 0 (in the method or at every call site of the helper)", "caller data is written straight to the socket while earlier bytes may still be in the buffer: a long line overtakes (and tears) the lines buffered before it")
+		})
+	}
 	if n == 0 {
-		c.Hold("destination.Writer.Write has no direct write", c.AtFn(w), "all data goes through the buffer")
+		c.Hold("destination.Writer has no direct write", c.AtFn(w), "all data goes through the buffer")
 	}
 	// copies go to buf[n:]
 	okCopy, nCopy := true, 0
